@@ -5,7 +5,7 @@
    theorems quantify over all segmentations, with no bound on stream length or chunk count. *)
 From OlaBase Require Import Bytes.
 From C10 Require Import Gen Model Lemmas ProofsRecv ProofsUsb ProofsRobe ProofsOpc ProofsAcn ProofsAcnRef Schedule ProofsSched ProofsSchedOpc ProofsOpcFast ProofsOpcReg ProofsRpc
-  ProofsRobeResync ProofsRobeDispatch ProofsAcnRoot.
+  ProofsRobeResync ProofsRobeDispatch ProofsAcnRoot ProofsInter.
 Local Open Scope N_scope.
 
 (* Side obligations: the constants regenerated from the headers are the numbers used by the
@@ -288,6 +288,32 @@ Theorem c10_schedule_rpc : forall (ok : list N -> bool) es,
 Proof. exact rpc_sched. Qed.
 Print Assumptions c10_schedule_rpc.
 
+(* Several live instances of one framer (two USB Pro widgets, a widget per port, ...) fed interleaved
+   partial reads: `inter` is the product machine — the schedule names the instance that receives the
+   next chunk of ITS stream.  Whatever the interleaving, every instance ends exactly as if it had
+   been fed its own chunks alone (for any framer model), so each fresh USB Pro / Robe widget delivers
+   the reference framer's messages of its own stream.  The harness runs the real classes in one
+   process under generated interleavings and compares each with its own single-instance run. *)
+Theorem c10_instances_independent :
+  forall (S : Type) (recv : S -> list N -> option (S * list N * list msg)) sched st st',
+  inter S recv st sched = Some st' ->
+  forall i s o, nth_error st i = Some (s, o) ->
+  exists s1 o1, nth_error st' i = Some (s1, o ++ o1) /\ feed recv s (chunks_for i sched) = Done s1 o1.
+Proof. exact inter_independent. Qed.
+Print Assumptions c10_instances_independent.
+
+Theorem c10_usbpro_robe_instances : forall n sched,
+  (forall st', inter ustate u_recv (repeat (u_init, []) n) sched = Some st' ->
+     forall i, (i < n)%nat -> exists s, nth_error st' i = Some (s, ref_usb (concat (chunks_for i sched)))) /\
+  (forall st', inter rstate r_recv (repeat (r_init, []) n) sched = Some st' ->
+     forall i, (i < n)%nat -> exists s, nth_error st' i = Some (s, ref_robe (concat (chunks_for i sched)))).
+Proof.
+  intros n sched. split; intros st' H i Hi.
+  - exact (usb_instances n sched st' H i Hi).
+  - exact (robe_instances n sched st' H i Hi).
+Qed.
+Print Assumptions c10_usbpro_robe_instances.
+
 (* the hypotheses are satisfiable / the statements are not vacuous *)
 Example c10_usbpro_example :
   ref_usb [0; 126; 6; 2; 0; 10; 20; 231; 126; 7; 0; 0; 231; 126; 8; 1; 0; 5; 0] = [(6, [10; 20]); (7, [])] /\
@@ -343,4 +369,10 @@ Example c10_acn_root_example :
   root_deliver (fun v => v =? 4)
     [(0, [96; 23; 0; 0; 0; 4] ++ repeat 1 16 ++ [42]); (0, [96; 22; 0; 0; 0; 5] ++ repeat 1 16);
      (0, [32; 22; 0; 0; 0; 4] ++ repeat 1 16)] = [(4, repeat 1 16 ++ [42])].
+Proof. vm_compute. reflexivity. Qed.
+Example c10_instances_example :
+  inter ustate u_recv [(u_init, []); (u_init, [])]
+    [(0%nat, [126; 6; 2; 0]); (1%nat, [126; 5; 4; 0; 9; 8; 7; 6; 231]); (0%nat, [1; 2; 231])] =
+  Some [({| u_st := U_PRE; u_label := 6; u_lo := 2; u_hi := 0; u_body := [1; 2] |}, [(6, [1; 2])]);
+        ({| u_st := U_PRE; u_label := 5; u_lo := 4; u_hi := 0; u_body := [9; 8; 7; 6] |}, [(5, [9; 8; 7; 6])])].
 Proof. vm_compute. reflexivity. Qed.
